@@ -74,15 +74,23 @@ func validBody(t *rapid.T, msgID uint16, id identity, label string) ([]byte, str
 	case 0x0002:
 		return nil, ""
 	case 0x0100:
+		// the registration response is built from the header alone: a body of any length (also one too short for the
+		// layout's fixed fields, or none) is a complete message that requires its answer
+		cut := func(b []byte) ([]byte, string) {
+			if rapid.IntRange(0, 3).Draw(t, label+"_short0100") == 0 {
+				return b[:rapid.IntRange(0, len(b)-1).Draw(t, label+"_keep0100")], ""
+			}
+			return b, ""
+		}
 		if id.V2019 {
 			b := append(rb(4), make([]byte, 71)...)
 			copy(b[4:], "MANUFACTURE")
 			b = append(b, 1)
-			return append(b, "A12345"...), ""
+			return cut(append(b, "A12345"...))
 		}
 		b := append(rb(4), make([]byte, 32)...)
 		b = append(b, 1)
-		return append(b, "A12345"...), ""
+		return cut(append(b, "A12345"...))
 	case 0x0102:
 		code := id.key()
 		note := "auth_ok"
